@@ -100,6 +100,56 @@ pub fn outside_ids(m: &UModel) -> Vec<usize> {
     ids
 }
 
+/// The iterator a query returns must behave like an iterator over exactly the
+/// defined sequence under every way of consuming it: stepping with `next()`
+/// and then finishing with `count`, `last`, `fold`, `nth` or `collect`, with
+/// a `size_hint` that brackets what is left.
+pub fn protocol<T, I>(what: &str, make: impl Fn() -> I, want: &[T]) -> Verdict
+where
+    T: PartialEq + Debug + Clone,
+    I: Iterator<Item = T>,
+{
+    let n = want.len();
+    let mut splits = vec![0, 1, 2, n / 2, n.saturating_sub(1), n, n + 1];
+    if n > 48 {
+        // long sequences: two split points are enough to see a stale cursor
+        splits = vec![1, n / 2];
+    }
+    splits.sort_unstable();
+    splits.dedup();
+    for k in splits {
+        let rest: &[T] = &want[k.min(n)..];
+        let advanced = || {
+            let mut it = make();
+            for _ in 0..k {
+                let _ = it.next();
+            }
+            it
+        };
+        let it = advanced();
+        let (lo, hi) = it.size_hint();
+        ensure!(
+            lo <= rest.len() && hi.map_or(true, |h| h >= rest.len()),
+            "{what}: after {k} next() calls size_hint() = ({lo}, {hi:?}) but {} items remain",
+            rest.len()
+        );
+        let got: Vec<T> = it.collect();
+        ensure!(got == rest, "{what}: after {k} next() calls the rest is {got:?}, expected {rest:?}");
+        let c = advanced().count();
+        ensure!(c == rest.len(), "{what}: after {k} next() calls count() = {c}, {} items remain", rest.len());
+        let l = advanced().last();
+        ensure!(l.as_ref() == rest.last(), "{what}: after {k} next() calls last() = {l:?}, expected {:?}", rest.last());
+        let f = advanced().fold(Vec::new(), |mut v, x| {
+            v.push(x);
+            v
+        });
+        ensure!(f == rest, "{what}: after {k} next() calls fold() visits {f:?}, expected {rest:?}");
+        let x = advanced().nth(1);
+        ensure!(x.as_ref() == rest.get(1), "{what}: after {k} next() calls nth(1) = {x:?}, expected {:?}", rest.get(1));
+    }
+    Ok(())
+}
+
 pub fn check_queries<D: Queries>(g: &D, name: &str, m: &UModel, walks: &[Vec<usize>]) -> Verdict {
     let before = g.clone();
     let vs = m.vertices();
@@ -178,6 +228,13 @@ pub fn check_queries<D: Queries>(g: &D, name: &str, m: &UModel, walks: &[Vec<usi
             i + o
         );
     }
+    // iterator protocol of the sequence-valued queries
+    protocol(&format!("{name}: arcs()"), || g.arcs(), &m.arcs())?;
+    protocol(&format!("{name}: vertices()"), || g.vertices(), &vs)?;
+    for &v in probe.iter().take(1).chain(probe.last()) {
+        protocol(&format!("{name}: out_neighbors({v})"), || g.out_neighbors(v), &m.out(v))?;
+        protocol(&format!("{name}: in_neighbors({v})"), || g.in_neighbors(v), &m.inn(v))?;
+    }
     let sinks: Vec<usize> = g.sinks().collect();
     let want: Vec<usize> = vs.iter().copied().filter(|v| outdeg_of[v] == 0).collect();
     ensure!(sinks == want, "{name}: sinks() = {sinks:?}, definition {want:?}");
@@ -187,6 +244,11 @@ pub fn check_queries<D: Queries>(g: &D, name: &str, m: &UModel, walks: &[Vec<usi
     let ds: Vec<usize> = g.degree_sequence().collect();
     let want: Vec<usize> = indeg.iter().zip(&outdeg).map(|(a, b)| a + b).collect();
     ensure!(ds == want, "{name}: degree_sequence() = {ds:?}, definition {want:?}");
+    if vs.len() <= 64 {
+        protocol(&format!("{name}: degree_sequence()"), || g.degree_sequence(), &want)?;
+        protocol(&format!("{name}: sinks()"), || g.sinks(), &sinks)?;
+        protocol(&format!("{name}: sources()"), || g.sources(), &sources)?;
+    }
     let is: Vec<usize> = g.indegree_sequence().collect();
     ensure!(is == indeg, "{name}: indegree_sequence() = {is:?}, definition {indeg:?}");
     let os: Vec<usize> = g.outdegree_sequence().collect();
@@ -292,7 +354,7 @@ impl Prop for C02 {
     type Case = Case;
     const ID: &'static str = "C02";
     const NUM: u64 = 2;
-    const RULE: &'static str = "digraphs of order 1..40 (quick) / 1..130 (thorough), about one in 25 at a large order (17..140, incl. 63..66, 127..130), and a low-rate 'huge' leg (orders 200..3100 with O(n) arcs, rows of exactly 255/256/257 out-neighbours, arcs in the last rows; per-vertex and per-pair queries on a sample of ids there) built into all five representations through empty + add_arc[_weighted], plus AdjacencyMap digraphs with non-contiguous ids; every vertex, every ordered pair over V + {order, order+1, max id+1, 1000, usize::MAX}, 8 vertex sequences per case (genuine random walks of length 0,1,2,..12, each optionally corrupted at one uniformly chosen position or extended by one arbitrary step, ids outside V included); a generated CPU count k (AdjacencyList::degree_sequence is threaded); enum leg: every digraph of order <=3 (quick) / <=4 (thorough). Non-trivial = size >=3, some vertex of indegree >=2, at least one false and one true has_walk answer over sequences of length >=2, and an id outside V was queried (always); distinct = distinct serialised case.";
+    const RULE: &'static str = "digraphs of order 1..40 (quick) / 1..130 (thorough), about one in 25 at a large order (17..140, incl. 63..66, 127..130), and a low-rate 'huge' leg (orders 200..3100 with O(n) arcs, rows of exactly 255/256/257 out-neighbours, arcs in the last rows; per-vertex and per-pair queries on a sample of ids there) built into all five representations through empty + add_arc[_weighted], plus AdjacencyMap digraphs with non-contiguous ids; every vertex, every ordered pair over V + {order, order+1, max id+1, 1000, usize::MAX}, 8 vertex sequences per case (genuine random walks of length 0,1,2,..12, each optionally corrupted at one uniformly chosen position or extended by one arbitrary step, ids outside V included); a generated CPU count k (AdjacencyList::degree_sequence is threaded); enum leg: every digraph of order <=3 (quick) / <=4 (thorough). The iterators of arcs, vertices, out/in_neighbors, sinks, sources and degree_sequence are also driven through next()-then-count/last/fold/nth/collect at several split points with size_hint checked. Non-trivial = size >=3, some vertex of indegree >=2, at least one false and one true has_walk answer over sequences of length >=2, and an id outside V was queried (always); distinct = distinct serialised case.";
     const ASSUMPTIONS: &'static [&'static str] = &[
         "queries documented to panic for a vertex outside V are only called with vertices in V",
         "is_source / in_neighbors outside V are not judged",
@@ -304,7 +366,7 @@ impl Prop for C02 {
             Leg {
                 name: "random",
                 kind: LegKind::Random {
-                    cases: tier.pick(6000, 20000),
+                    cases: tier.pick(4000, 16000),
                 },
                 workers: 16,
                 build: Build::Normal,
